@@ -56,7 +56,17 @@ def gen_scripts(ctx, name, consts, want, depth, subst=None):
     sb = dict(SUBST); sb.update(subst or {})
     sb.setdefault("SubFilters", sb["Filters"])
     cfg = write(ctx, "MC_RouterGen_" + name, cfg_text(c, sb, "SPECIFICATION GenSpec\nINVARIANTS EmitScript\nCHECK_DEADLOCK FALSE\n"))
-    return vlib.tlc_generate(ctx, "MC_RouterGen", cfg, "SCRIPT", want, depth, workers=3, name="routergen_" + name)
+    scripts = vlib.tlc_generate(ctx, "MC_RouterGen", cfg, "SCRIPT", want, depth, workers=3, name="routergen_" + name)
+    # epilogue: the behaviour TLC generated stops anywhere; every client then takes what is waiting for it and answers it, and
+    # the router runs until it says it has nothing to do, so that what the behaviour left behind becomes observable
+    epi = []
+    for _ in range(3):
+        for n in ("n1", "n2", "n3", "n4"):
+            epi += [{"op": "drain", "n": n}, {"op": "react", "n": n, "max": 100}]
+        epi.append({"op": "idle", "max": 60})
+    for sc in scripts:
+        sc["steps"] = list(sc["steps"]) + epi
+    return scripts
 
 
 def run_and_validate(ctx, pid, bindir, scripts, tag, inv, small, max_conn=2, out_batch=2, nets='{"n1", "n2", "n3", "n4", "n5", "n6"}', act=()):
